@@ -40,6 +40,9 @@ def cases(tier, seed):
     # ... or as a vector (not only along the sketch's normal) or a negative distance
     for amount in ("vec_up", "vec_down", "vec_skew", "vec_np", "neg_float"):
         out.append({"what": "stack", "kind": "extruded", "n": 2, "m": 2, "tiers": 3, "amount": amount})
+    for amount in ("neg_angle", "off_axis", "neg_off_axis"):
+        for tiers in (1, 2, 3):
+            out.append({"what": "stack", "kind": "revolved", "n": 2, "m": 3, "tiers": tiers, "amount": amount})
     frames = sorted({0, 4, 1 + seed % 7}) if tier == "quick" else list(range(len(FRAMES)))
     for fr in frames:
         for shape in ("Cylinder", "SemiCylinder", "Frustum", "Elbow", "ExtrudedRing", "RevolvedRing", "Hemisphere", "OneCoreDisk", "FourCoreDisk", "HalfDisk", "Oval", "WrappedDisk", "QuarterDisk", "QuarterSplineDisk", "HalfSplineDisk", "SplineDisk", "SplineDisk_circular"):
@@ -79,9 +82,11 @@ def make_stack(kind, n, m, tiers, amount="float"):
         stack = cb.ExtrudedStack(base, two, tiers)
         maps = [lambda p, k=k: p + whole / tiers * k for k in range(tiers + 1)]
     elif kind == "revolved":
-        total = 1.2
-        stack = cb.RevolvedStack(base, total, [1, 0, 0], [0, 0, 0], tiers)
-        maps = [lambda p, k=k: rot(p, [1, 0, 0], total / tiers * k) for k in range(tiers + 1)]
+        # (neg_angle: the same revolution given as a negative angle about the opposite axis; off_axis: an axis that
+        # does not pass through the origin)
+        total, axis, origin = {"neg_angle": (-1.2, [-1, 0, 0], [0, 0, 0]), "off_axis": (0.9, [1, 0.2, 0], [0.3, -0.5, 0]), "neg_off_axis": (-0.9, [-1, -0.2, 0], [0.3, -0.5, 0])}.get(amount, (1.2, [1, 0, 0], [0, 0, 0]))
+        stack = cb.RevolvedStack(base, total, axis, origin, tiers)
+        maps = [lambda p, k=k: np.asarray(origin, float) + rot(p - np.asarray(origin, float), axis, total / tiers * k) for k in range(tiers + 1)]
     else:
         tvec, ang = np.array([0.1, 0.0, 0.7]), 0.25
 
